@@ -53,8 +53,11 @@ func newPool(peerCooldownTime time.Duration) *pool {
 
 // tryGet returns peer along with bool flag indicating success of operation.
 func (p *pool) tryGet() (peer.ID, bool) {
+	verifEv(p, "tryGet.enter", "")
 	p.m.Lock()
 	defer p.m.Unlock()
+	verifEv(p, "tryGet.locked", "")
+	defer verifEv(p, "tryGet.unlock", "")
 
 	if p.activeCount == 0 {
 		return "", false
@@ -88,16 +91,23 @@ func (p *pool) tryGet() (peer.ID, bool) {
 // next sends a peer to the returned channel when it becomes available.
 func (p *pool) next(ctx context.Context) <-chan peer.ID {
 	peerCh := make(chan peer.ID, 1)
+	verifTok := verifSpawn()
 	go func() {
+		verifAdopt(verifTok)
+		defer verifEv(p, "next.exit", "")
 		for {
 			if peerID, ok := p.tryGet(); ok {
 				peerCh <- peerID
 				return
 			}
 
+			verifEv(p, "next.loop", "")
 			p.m.RLock()
+			verifEv(p, "next.rlocked", "")
 			hasPeerCh := p.hasPeerCh
+			verifEv(p, "next.runlock", "")
 			p.m.RUnlock()
+			verifEv(p, "next.wait", "")
 			select {
 			case <-hasPeerCh:
 			case <-ctx.Done():
@@ -109,8 +119,11 @@ func (p *pool) next(ctx context.Context) <-chan peer.ID {
 }
 
 func (p *pool) add(peers ...peer.ID) {
+	verifEv(p, "add.enter", "")
 	p.m.Lock()
 	defer p.m.Unlock()
+	verifEv(p, "add.locked", "")
+	defer verifEv(p, "add.unlock", "")
 
 	for _, peerID := range peers {
 		status, ok := p.statuses[peerID]
@@ -129,8 +142,11 @@ func (p *pool) add(peers ...peer.ID) {
 }
 
 func (p *pool) remove(peers ...peer.ID) {
+	verifEv(p, "remove.enter", "")
 	p.m.Lock()
 	defer p.m.Unlock()
+	verifEv(p, "remove.locked", "")
+	defer verifEv(p, "remove.unlock", "")
 
 	for _, peerID := range peers {
 		if status, ok := p.statuses[peerID]; ok && status != removed {
@@ -149,16 +165,22 @@ func (p *pool) remove(peers ...peer.ID) {
 }
 
 func (p *pool) has(peer peer.ID) bool {
+	verifEv(p, "has.enter", peer)
 	p.m.RLock()
 	defer p.m.RUnlock()
+	verifEv(p, "has.rlocked", peer)
+	defer verifEv(p, "has.runlock", peer)
 
 	status, ok := p.statuses[peer]
 	return ok && status != removed
 }
 
 func (p *pool) peers() []peer.ID {
+	verifEv(p, "peers.enter", "")
 	p.m.RLock()
 	defer p.m.RUnlock()
+	verifEv(p, "peers.rlocked", "")
+	defer verifEv(p, "peers.runlock", "")
 
 	peers := make([]peer.ID, 0, len(p.peersList))
 	for peer, status := range p.statuses {
@@ -185,8 +207,11 @@ func (p *pool) cleanup() {
 }
 
 func (p *pool) putOnCooldown(peerID peer.ID) {
+	verifEv(p, "putOnCooldown.enter", peerID)
 	p.m.Lock()
 	defer p.m.Unlock()
+	verifEv(p, "putOnCooldown.locked", peerID)
+	defer verifEv(p, "putOnCooldown.unlock", peerID)
 
 	if status, ok := p.statuses[peerID]; ok && status == active {
 		p.cooldown.push(peerID)
@@ -199,8 +224,11 @@ func (p *pool) putOnCooldown(peerID peer.ID) {
 }
 
 func (p *pool) afterCooldown(peerID peer.ID) {
+	verifEv(p, "afterCooldown.enter", peerID)
 	p.m.Lock()
 	defer p.m.Unlock()
+	verifEv(p, "afterCooldown.locked", peerID)
+	defer verifEv(p, "afterCooldown.unlock", peerID)
 
 	// an entry from an earlier cooldown of the same peer expired: the peer has been put on cooldown
 	// again since, it stays there until its last entry expires
@@ -235,7 +263,10 @@ func (p *pool) checkHasPeers() {
 }
 
 func (p *pool) len() int {
+	verifEv(p, "len.enter", "")
 	p.m.RLock()
 	defer p.m.RUnlock()
+	verifEv(p, "len.rlocked", "")
+	defer verifEv(p, "len.runlock", "")
 	return p.activeCount
 }
